@@ -178,6 +178,7 @@ def build_from_world(old_world, new_config: dict, new_name: str = None):
                 new_variant_name = f'{world_name_pre}_variant_{i}'
                 if new_variant_name != new_name:
                     break
+                i += 1
             new_name = new_variant_name
         else:
             new_name = f'{new_name}_variant'
